@@ -47,8 +47,39 @@ def tsan_run(rng):
     return reports, n
 
 
+def bookkeeping_stress(tier, scripts=None):
+    """real concurrency on the manager's shared bookkeeping: tasks that use a component combination for the first time"""
+    drv, err = vlib.build_driver('em_driver')
+    if err:
+        return None, {}
+    rounds = 120 if tier == 'quick' else 1000
+    scripts = scripts or [('pn%d' % t, ['maxthreads %d' % mgr.MAXTHREADS, 'threads %d' % t, 'update', 'pcreatenew %d 3' % rounds]) for t in (2, 4, 8)]
+    io, _ = emcmp.run_driver(drv, emcmp.scripts_text(scripts), os.path.join(vlib.BUILD, 'work', PROP + '-pn'), timeout=1200)
+    created = 0
+    for name, blocks in emcmp.parse(io):
+        for b in blocks:
+            if b['crash']:
+                return (name, 'implementation crashed: ' + b['crash'], dict(scripts)[name]), {}
+            r = (b['tags'].get('R') or ['R'])[0]
+            if 'pcreatenew' in r:
+                kv = dict(re.findall(r'(\w+)=(\d+)', r))
+                created += int(kv.get('created', 0))
+                if int(kv['dup_arch']) or int(kv['miscount']) or int(kv['invalid']):
+                    return (name, 'tasks creating entities of a new component combination at the same time: %s round(s) ended with more or fewer than one archetype for it, %s with a wrong member count, %s handles not alive'
+                            % (kv['dup_arch'], kv['miscount'], kv['invalid']), dict(scripts)[name]), {}
+    return None, {'first_use_stress': {'scripts': len(scripts), 'entities_created': created, 'workers': [2, 4, 8]}}
+
+
 def run(tier, seed, replay=None):
     rng = vlib.Rng(seed)
+    rl = [l.rstrip('\n') for l in open(replay) if l.strip() and not l.startswith('#')] if replay else []
+    only_pn = any(l.startswith('pcreatenew') for l in rl)
+    bad, pn_cov = bookkeeping_stress(tier, [('replay', rl)] if only_pn else None) if (only_pn or not replay) else (None, {})
+    if bad or only_pn:
+        if not bad:
+            return {'violations': [], 'coverage': dict(pn_cov, rule='replay of a first-use stress script', evaluations=1, distinct_nontrivial=1), 'level': 'proof'}
+        p = vlib.write_replay(PROP, 'failing_script.txt', '# %s\n# script %s (a race: repeat the run if it passes once)\n%s\n' % (bad[1], bad[0], '\n'.join(bad[2])))
+        return {'violations': [(p, '')], 'coverage': {'rule': 'first-use stress failed before the script comparison ran', 'evaluations': 3, 'distinct_nontrivial': 3}, 'level': 'proof'}
     pr = proofcheck.prove(PROP)
     n, maxops = (80, 60) if tier == 'quick' else (1200, 200)
     if replay:
@@ -60,6 +91,7 @@ def run(tier, seed, replay=None):
                              assumptions=['user code writes only the components it is handed',
                                           'data-race freedom is not provable in the model: it is the premise of the models, checked by ThreadSanitizer in the thorough tier',
                                           'locked-mode API calls are atomic with respect to each other (call granularity)'])
+    res['coverage'].update(pn_cov)
     if res['violations'] or replay:
         return res
     # (b) completion before return: recorded dispatcher traces replayed through the LTS
